@@ -20,6 +20,7 @@ semantics (same operations, same order, same exceptions); nothing is executed.  
                                                                    and the right-hand sides are calls-free or there is no
                                                                    dependency between them: evaluation order is kept)
 
+  ITER     for n in iter(o.m, <const>): B  ->  while True: n = o.m(); if n == <const>: break; B     (o a name the body does not rebind)
   STAR     [*x] -> list(x);   CHAIN   a < b < c -> a < b and b < c (shared operands plain names / constants)
   LOCALCONST  a local bound once at the top level of a function to a literal is replaced by the literal where it is read afterwards
   CLASSDEFAULT  a class-level literal default of a class with __init__ is written as `self.name = literal` at the top of __init__
@@ -292,6 +293,19 @@ class Canon(ast.NodeTransformer):
 
     def visit_For(self, node):
         self.generic_visit(node)
+        # ITER: the two-argument iter() calls the bound method until it returns something equal to the sentinel
+        if _on("ITER") and not node.orelse and isinstance(node.target, ast.Name) and isinstance(node.iter, ast.Call) \
+                and isinstance(node.iter.func, ast.Name) and node.iter.func.id == "iter" and len(node.iter.args) == 2 and not node.iter.keywords \
+                and isinstance(node.iter.args[0], ast.Attribute) and isinstance(node.iter.args[0].value, ast.Name) \
+                and isinstance(node.iter.args[1], ast.Constant) \
+                and node.iter.args[0].value.id not in {n for s in node.body for n in _names_stored(s)} | {node.target.id}:
+            _hit("ITER")
+            fn, sent = node.iter.args
+            asg = ast.copy_location(ast.Assign(targets=[node.target], value=ast.copy_location(ast.Call(func=fn, args=[], keywords=[]), node.iter)), node.iter)
+            cmp_ = ast.copy_location(ast.Compare(left=ast.copy_location(ast.Name(id=node.target.id, ctx=ast.Load()), node.iter), ops=[ast.Eq()], comparators=[sent]), node.iter)
+            brk = ast.copy_location(ast.If(test=cmp_, body=[ast.copy_location(ast.Break(), node.iter)], orelse=[]), node.iter)
+            new = ast.copy_location(ast.While(test=ast.copy_location(ast.Constant(value=True), node), body=[asg, brk] + node.body, orelse=[]), node)
+            return self.visit_While(new)
         self._bodies(node)
         if _on("TAIL"):
             node.body = _strip_tail(node.body, ast.Continue) or [ast.copy_location(ast.Pass(), node)]
